@@ -63,6 +63,15 @@ int _vnacal_new_solve_simple(vnacal_new_solve_state_t *vnssp,
 	    goto out;
 	}
 	_vnacal_new_solve_init_x_vector(vnssp, prev_x_vector, x_length);
+
+	/*
+	 * The convergence test below runs over all of x_vector while
+	 * the systems are solved one at a time: start the entries of
+	 * the systems not solved yet from the same initial values so
+	 * that they compare equal instead of being read uninitialized.
+	 */
+	(void)memcpy((void *)x_vector, (void *)prev_x_vector,
+		x_length * sizeof(double complex));
     }
 
     /*
